@@ -310,37 +310,41 @@ thread_local! {
 /// to use its second interface (PTRACE_GETREGS / PTRACE_GETFPREGS) for that set.  Bits 2..4 refuse the
 /// second interfaces and PTRACE_PEEKUSER too (then the thread's registers cannot be read at all).
 pub fn with_refused_regsets<R>(mask: u8, f: impl FnOnce() -> R) -> R {
-    let old = REFUSED_REGSETS.with(|m| m.replace(mask & 31));
+    let old = REFUSED_REGSETS.with(|m| m.replace(mask & 63));
     let r = f();
     REFUSED_REGSETS.with(|m| m.set(old));
     r
 }
 
-/// seccomp filter for the calling thread: the selected ptrace requests fail with EIO.
+/// seccomp filter for the calling thread: the selected requests fail (ptrace ones with EIO).
 /// bit 0: PTRACE_GETREGSET for NT_PRSTATUS, bit 1: PTRACE_GETREGSET for NT_PRFPREG,
-/// bit 2: PTRACE_GETREGS, bit 3: PTRACE_GETFPREGS, bit 4: PTRACE_PEEKUSER (debug registers)
+/// bit 2: PTRACE_GETREGS, bit 3: PTRACE_GETFPREGS, bit 4: PTRACE_PEEKUSER (debug registers),
+/// bit 5: process_vm_readv (EPERM: a kernel without cross-memory attach, or a sandbox policy)
 fn install_regset_filter(mask: u8) -> bool {
     const ALLOW: u32 = 0x7fff_0000;
     const EIO: u32 = 0x0005_0000 | 5;
+    const EPERM: u32 = 0x0005_0000 | 1;
     let ins = |code: u16, jt: u8, jf: u8, k: u32| libc::sock_filter { code, jt, jf, k };
-    let ret = |refuse: bool| ins(0x06, 0, 0, if refuse { EIO } else { ALLOW });
+    let ret = |refuse: bool, e: u32| ins(0x06, 0, 0, if refuse { e } else { ALLOW });
     let prog = [
         ins(0x20, 0, 0, 0), // A = nr
-        ins(0x15, 0, 8, libc::SYS_ptrace as u32), // not ptrace -> 10 (allow)
+        ins(0x15, 15, 0, libc::SYS_process_vm_readv as u32), // -> 17
+        ins(0x15, 0, 8, libc::SYS_ptrace as u32), // not ptrace -> 11 (allow)
         ins(0x20, 0, 0, 16), // A = low half of the request
-        ins(0x15, 7, 0, 12), // PTRACE_GETREGS   -> 11
-        ins(0x15, 7, 0, 14), // PTRACE_GETFPREGS -> 12
-        ins(0x15, 7, 0, 3),  // PTRACE_PEEKUSER  -> 13
-        ins(0x15, 0, 3, 0x4204), // not PTRACE_GETREGSET -> 10 (allow)
+        ins(0x15, 7, 0, 12), // PTRACE_GETREGS   -> 12
+        ins(0x15, 7, 0, 14), // PTRACE_GETFPREGS -> 13
+        ins(0x15, 7, 0, 3),  // PTRACE_PEEKUSER  -> 14
+        ins(0x15, 0, 3, 0x4204), // not PTRACE_GETREGSET -> 11 (allow)
         ins(0x20, 0, 0, 32), // A = low half of the note type
-        ins(0x15, 5, 0, 1), // NT_PRSTATUS -> 14
-        ins(0x15, 5, 0, 2), // NT_PRFPREG  -> 15
-        ret(false),         // 10
-        ret(mask & 4 != 0), // 11
-        ret(mask & 8 != 0), // 12
-        ret(mask & 16 != 0), // 13
-        ret(mask & 1 != 0), // 14
-        ret(mask & 2 != 0), // 15
+        ins(0x15, 5, 0, 1), // NT_PRSTATUS -> 15
+        ins(0x15, 5, 0, 2), // NT_PRFPREG  -> 16
+        ret(false, EIO),          // 11
+        ret(mask & 4 != 0, EIO),  // 12
+        ret(mask & 8 != 0, EIO),  // 13
+        ret(mask & 16 != 0, EIO), // 14
+        ret(mask & 1 != 0, EIO),  // 15
+        ret(mask & 2 != 0, EIO),  // 16
+        ret(mask & 32 != 0, EPERM), // 17
     ];
     let fprog = libc::sock_fprog { len: prog.len() as u16, filter: prog.as_ptr() as *mut _ };
     unsafe { libc::prctl(libc::PR_SET_NO_NEW_PRIVS, 1, 0, 0, 0) == 0 && libc::prctl(libc::PR_SET_SECCOMP, 2 /* SECCOMP_MODE_FILTER */, &fprog as *const _) == 0 }
@@ -357,7 +361,7 @@ pub fn on_filtered_thread<R>(mask: u8, f: impl FnOnce() -> R) -> Option<R> {
     std::thread::scope(|s| {
         s.spawn(move || {
             let pf = pf;
-            if !install_regset_filter(mask & 31) {
+            if !install_regset_filter(mask & 63) {
                 return None;
             }
             Some(P((pf.0)()))
